@@ -9,7 +9,8 @@ from ..cfg import cfg_of
 from ..atoms import Atomizer, FlagTracker, must_facts
 from ..lockset import call_sites
 from .. import astutil as A
-from .common_node import ready_constants, identity_semantics, route_lists_not_aliased
+from .common_node import (ready_constants, identity_semantics, route_lists_not_aliased,
+                          peer_connection_ownership)
 
 TECHNIQUE = "def-use and filter-shape analysis of route_request; CFG ordering (waiter registered " \
             "before send, removed in finally); delivery def-use in _receive_app_answer"
@@ -71,6 +72,8 @@ def run(ctx: Ctx):
     ready_constants(ctx, "C10-R0")
     identity_semantics(ctx, "C10-R0b")
     route_lists_not_aliased(ctx, "C10-R0c")
+    # a request goes to `peer.connection`: that attribute must name a connection of that very peer
+    peer_connection_ownership(ctx, "C10-R0d")
 
     # ---------------- R1 candidate list ------------------------------------------------
     ctx.rule("C10-R1", "candidate peers = route entry of (realm, application), '_default' only "
